@@ -190,6 +190,7 @@ func main() {
 	replayDir := filepath.Join(*verif, "replays")
 	os.MkdirAll(replayDir, 0o755)
 	nProof, nDis, nCover, nCoverSat := 0, 0, 0, 0
+	coverUndecided := []string{}
 	byBackend := map[string]int{}
 	solverSecs := 0.0
 	violations := 0
@@ -205,6 +206,7 @@ func main() {
 			} else {
 				// vacuity: precondition/path unsatisfiable (or undecided)
 				if ob.Result != "unsat" {
+					coverUndecided = append(coverUndecided, ob.Name)
 					fmt.Printf("cover undecided: %s result=%s (vacuity of this path is not excluded by the solver)\n", ob.Name, ob.Result)
 				}
 				if ob.Result == "unsat" {
@@ -286,7 +288,8 @@ func main() {
 				"functions_under_contract": fuc,
 				"by_backend":               byBackend,
 				"solver_seconds":           round3(solverSecs),
-				"cover_queries":            map[string]int{"run": nCover, "sat": nCoverSat},
+				"cover_queries":            map[string]int{"run": nCover, "sat": nCoverSat, "undecided": len(coverUndecided)},
+				"cover_undecided":          coverUndecided,
 				"not_covered":              ps.NotCovered,
 				"stale_contracts":          stale,
 				"trusted_contracts":        trustedContracts,
